@@ -6,6 +6,9 @@ pub mod c04;
 pub mod c05;
 pub mod c06;
 pub mod c07;
+pub mod c08;
+pub mod c09;
+pub mod c10;
 
 pub struct Entry {
     pub id: &'static str,
@@ -20,10 +23,17 @@ pub fn lookup(id: &str) -> Option<Entry> {
         "C05" => Entry { id: "C05", check: c05::check, replay: c05::replay },
         "C06" => Entry { id: "C06", check: c06::check, replay: c06::replay },
         "C07" => Entry { id: "C07", check: c07::check, replay: c07::replay },
+        "C08" => Entry { id: "C08", check: c08::check, replay: c08::replay },
+        "C09" => Entry { id: "C09", check: c09::check, replay: c09::replay },
+        "C10" => Entry { id: "C10", check: c10::check, replay: c10::replay },
         _ => return None,
     })
 }
 
-pub fn worker(_args: &[String]) -> i32 {
-    2
+pub fn worker(args: &[String]) -> i32 {
+    match args.first().map(|s| s.as_str()) {
+        Some("digest") => c09::worker_digest(),
+        Some("shard") | Some("one") if args.get(1).map(|s| s.as_str()) == Some("C10") => c10::worker(args),
+        _ => 2,
+    }
 }
